@@ -44,13 +44,18 @@ type memInfo struct {
 	dir  bool
 }
 
-func (i memInfo) Name() string       { return i.name }
-func (i memInfo) Size() int64        { return i.size }
-func (i memInfo) Mode() fs.FileMode  { if i.dir { return fs.ModeDir | 0o755 }; return 0o644 }
-func (i memInfo) ModTime() time.Time { return time.Time{} }
-func (i memInfo) IsDir() bool        { return i.dir }
-func (i memInfo) Sys() any           { return nil }
-func (i memInfo) Type() fs.FileMode  { return i.Mode().Type() }
+func (i memInfo) Name() string { return i.name }
+func (i memInfo) Size() int64  { return i.size }
+func (i memInfo) Mode() fs.FileMode {
+	if i.dir {
+		return fs.ModeDir | 0o755
+	}
+	return 0o644
+}
+func (i memInfo) ModTime() time.Time         { return time.Time{} }
+func (i memInfo) IsDir() bool                { return i.dir }
+func (i memInfo) Sys() any                   { return nil }
+func (i memInfo) Type() fs.FileMode          { return i.Mode().Type() }
 func (i memInfo) Info() (fs.FileInfo, error) { return i, nil }
 
 func (m *memFS) isDir(name string) bool {
@@ -270,9 +275,11 @@ func VerifC20Log() {
 		case 2:
 			c20.logInfo.FinalTree.RootHash[3] ^= 1
 		case 3:
-			c20.logInfo.FinalTree.Size = 41
+			c20.logInfo.FinalTree.Size = verifNondetInt64("final-size")
+			verifAssume(c20.logInfo.FinalTree.Size != 42)
 		case 4:
-			c20.logInfo.FinalTree.Timestamp = ts + 1
+			c20.logInfo.FinalTree.Timestamp = verifNondetInt64("final-timestamp")
+			verifAssume(c20.logInfo.FinalTree.Timestamp != ts)
 		}
 	}
 	sinceLimit := time.Duration(verifNondetInt64("since-limit"))
